@@ -2,6 +2,7 @@ package main
 
 import (
 	"fmt"
+	"go/token"
 	"go/types"
 	"strings"
 
@@ -432,4 +433,83 @@ func (r *Report) IteratorLoopCensus(key string, prefixes []string, allowed map[s
 			r.Unres(key+"|"+f+"#stale", d, "reviewed early stop no longer exists (stale table)")
 		}
 	}
+}
+
+// LoopTrips: the (single) counted loop of fn whose bound carries the atoms runs exactly `bound` times: it counts from 0
+// with `i < bound` or from 1 with `i <= bound`.
+func (r *Report) LoopTrips(key, fnKey string, boundAtoms []string) {
+	w := r.W
+	fn := w.Fn(fnKey)
+	d := fmt.Sprintf("the loop of %s bounded by %v makes exactly that many iterations", fnKey, boundAtoms)
+	k := key + "|" + fnKey
+	if fn == nil {
+		r.Unres(k, d, "function not found")
+		return
+	}
+	w.FuncsAnalysed[fn] = true
+	initOf := func(t ssa.Value) (int64, bool) {
+		for {
+			switch x := t.(type) {
+			case *ssa.Convert:
+				t = x.X
+				continue
+			case *ssa.Phi:
+				for _, e := range x.Edges {
+					if c, ok := e.(*ssa.Const); ok {
+						if v, ok := constInt(c); ok {
+							return v, true
+						}
+					}
+				}
+			}
+			return 0, false
+		}
+	}
+	for h := range naturalLoops(fn) {
+		ifi := ifOf(h)
+		if ifi == nil {
+			continue
+		}
+		bo, ok := ifi.Cond.(*ssa.BinOp)
+		if !ok {
+			continue
+		}
+		var idx ssa.Value
+		trips := int64(-1 << 62)
+		xHas, yHas := Render(bo.X).Has(boundAtoms...), Render(bo.Y).Has(boundAtoms...)
+		switch {
+		case bo.Op == token.LSS && yHas: // i < bound
+			idx = bo.X
+			if c, ok := initOf(idx); ok {
+				trips = -c
+			}
+		case bo.Op == token.LEQ && yHas: // i <= bound
+			idx = bo.X
+			if c, ok := initOf(idx); ok {
+				trips = -c + 1
+			}
+		case bo.Op == token.GTR && xHas: // bound > i
+			idx = bo.Y
+			if c, ok := initOf(idx); ok {
+				trips = -c
+			}
+		case bo.Op == token.GEQ && xHas: // bound >= i
+			idx = bo.Y
+			if c, ok := initOf(idx); ok {
+				trips = -c + 1
+			}
+		default:
+			continue
+		}
+		w.SitesExamined++
+		if trips == 0 {
+			r.OK(k, d, w.posOr(ifi.Cond.Pos(), fn), "counts "+clip(Render(ifi.Cond).String(), 100))
+		} else if trips == int64(-1<<62) {
+			r.Unres(k, d, "the loop counter does not start from a constant")
+		} else {
+			r.Bad(k, d, w.posOr(ifi.Cond.Pos(), fn), fmt.Sprintf("the loop makes bound%+d iterations", trips))
+		}
+		return
+	}
+	r.Unres(k, d, "no counted loop with that bound found")
 }
